@@ -37,3 +37,91 @@ func refEncode(key, value []byte, del bool) []byte {
 	out[p+3] = byte(c >> 24)
 	return out
 }
+
+// refRecord is one record accepted by the reference decoder.
+type refRecord struct {
+	del    bool
+	key    []byte
+	value  []byte
+	offset int // offset of the record in the segment file
+	size   int
+}
+
+// refDecodeAt validates the record starting at data[off:] the way the
+// documented format prescribes. ok=false means "first invalid record here":
+// too short for a header, claimed length beyond the data present, or checksum
+// mismatch.
+func refDecodeAt(data []byte, off int) (rec refRecord, ok bool) {
+	rest := len(data) - off
+	if rest < 6 {
+		return rec, false
+	}
+	kl := int(data[off]) | int(data[off+1])<<8
+	vraw := uint32(data[off+2]) | uint32(data[off+3])<<8 | uint32(data[off+4])<<16 | uint32(data[off+5])<<24
+	del := vraw&0x80000000 != 0
+	vl := int64(vraw & 0x7fffffff)
+	total := int64(6) + int64(kl) + vl + 4
+	if total > int64(rest) {
+		return rec, false
+	}
+	t := int(total)
+	sum := uint32(data[off+t-4]) | uint32(data[off+t-3])<<8 | uint32(data[off+t-2])<<16 | uint32(data[off+t-1])<<24
+	if sum != crc32.ChecksumIEEE(data[off:off+t-4]) {
+		return rec, false
+	}
+	rec.del = del
+	rec.key = data[off+6 : off+6+kl]
+	rec.value = data[off+6+kl : off+t-4]
+	rec.size = t
+	return rec, true
+}
+
+// refHeader is the documented 512-byte file header.
+func refHeader() []byte {
+	h := make([]byte, 512)
+	sig := []byte{'p', 'o', 'g', 'r', 'e', 'b', 0x0e, 0xfd}
+	for i := range sig {
+		h[i] = sig[i]
+	}
+	h[8] = 2 // format version 2, uint32 little endian
+	return h
+}
+
+// refMurmur3 is MurmurHash3_x86_32 written from the reference description.
+func refMurmur3(data []byte, seed uint32) uint32 {
+	const c1, c2 = 0xcc9e2d51, 0x1b873593
+	h := seed
+	n := len(data)
+	nb := n / 4
+	for b := 0; b < nb; b++ {
+		k := uint32(data[4*b]) | uint32(data[4*b+1])<<8 | uint32(data[4*b+2])<<16 | uint32(data[4*b+3])<<24
+		k *= c1
+		k = k<<15 | k>>17
+		k *= c2
+		h ^= k
+		h = h<<13 | h>>19
+		h = h*5 + 0xe6546b64
+	}
+	var k uint32
+	tail := data[4*nb:]
+	if len(tail) >= 3 {
+		k ^= uint32(tail[2]) << 16
+	}
+	if len(tail) >= 2 {
+		k ^= uint32(tail[1]) << 8
+	}
+	if len(tail) >= 1 {
+		k ^= uint32(tail[0])
+		k *= c1
+		k = k<<15 | k>>17
+		k *= c2
+		h ^= k
+	}
+	h ^= uint32(n)
+	h ^= h >> 16
+	h *= 0x85ebca6b
+	h ^= h >> 13
+	h *= 0xc2b2ae35
+	h ^= h >> 16
+	return h
+}
